@@ -131,6 +131,24 @@ Theorem c17_resume : forall cfg ops1 ops2 from k fuel,
 Proof. exact resume_char. Qed.
 Print Assumptions c17_resume.
 
+(* Resume on another replica (leader change).  The store of the node that leads now has its own history [opsB]
+   (its own trimming rounds and re-opens); the hypothesis that ties it to the old leader's store is explicit: for the
+   committed prefix it logged the same batches ([h_log hB = h_log hA ++ nw]).  That hypothesis is replica determinism
+   (C06) and is checked on real controllers - follower created on an empty directory, NewTerm with options, entries
+   replicated by a real leader, promotion - by harness notif (verdict notif:replica-batch-missing). *)
+Theorem c17_resume_on_replica : forall cfg opsA opsB from k fuel,
+  ops_user opsA -> ops_small opsA -> ops_user opsB -> ops_small opsB ->
+  let hA := hrun cfg opsA in
+  let hB := hrun cfg opsB in
+  (exists nw, h_log hB = h_log hA ++ nw) ->
+  h_lo hA <= from + 1 -> -1 <= from < TWO62 ->
+  let seen := firstn k (fst (dispatch (S (S fuel)) (h_st hA) from)) in
+  let l := last_offset seen from in
+  h_lo hB <= l + 1 ->
+  seen ++ fst (dispatch (S (S fuel)) (h_st hB) l) = above from (h_log hB).
+Proof. exact resume_on_replica. Qed.
+Print Assumptions c17_resume_on_replica.
+
 (* The same through the client's own resume logic (oxia/notifications.go after the repair of O-17): first
    connection = dummy batch at [qc1] (the leader's commit offset, -1 on an empty shard) + [k1] batches, the
    stream breaks, second connection to the same or a later store: what is handed to the application is a
